@@ -40,12 +40,12 @@ structure IStore where
 
 def IStore.room (s : IStore) : Nat :=
   match s.kind with
-  | .vec | .arr => s.cap - s.data.length
+  | .vec | .arr | .raw => s.cap - s.data.length
   | .slice | .sref => s.cap
 
 def IStore.release (s : IStore) (v : IView) : IStore :=
   match s.kind with
-  | .vec | .arr => { s with data := s.data ++ v.log }
+  | .vec | .arr | .raw => { s with data := s.data ++ v.log }
   | .slice => s
   | .sref => { s with cap := v.log.length, data := v.log }
 
@@ -87,9 +87,17 @@ def onTop (s : ISess) (f : IView → IView × Res) (okR capR : Resp) : ISess × 
     | (v', .cap) => ({ s with stack := v' :: rest }, capR)
     | (v', .panic) => (unwind { s with stack := v' :: rest }, .panic)
 
-/-- a capped view has capacity `min(room, c₁, c₂, …)`; opening never fails -/
+/-- a capped view has capacity `min(room, c₁, c₂, …)` -/
 def openView (s : ISess) (caps : List Nat) : ISess :=
   { s with stack := { cap := caps.foldl min s.baseRoom, log := [] } :: s.stack }
+
+/-- opening fails (panic) only for a caller-owned counter that already counted something -/
+def canOpen (s : ISess) : Bool :=
+  !(s.stack.isEmpty && (s.store.kind == .raw) && !s.store.data.isEmpty)
+
+/-- a caller-owned `BufferRef` cannot be capped -/
+def rawCapped (s : ISess) (caps : List Nat) : Bool :=
+  s.stack.isEmpty && (s.store.kind == .raw) && !caps.isEmpty
 
 def readTop (s : ISess) : ISess × Resp :=
   match s.stack with
@@ -121,7 +129,10 @@ def step (s : ISess) : Op → ISess × Resp
     match s.stack with
     | [] => (s, .badOp)
     | v :: _ => (s, .num v.room)
-  | .openV caps => (s.openView caps, .opened)
+  | .openV caps =>
+    if s.rawCapped caps then (s, .badOp)
+    else if s.canOpen then (s.openView caps, .opened)
+    else (s.unwind, .panic)
   | .init =>
     match s.stack with
     | [] => (s, .badOp)
@@ -131,7 +142,10 @@ def step (s : ISess) : Op → ISess × Resp
     | [] => (s, .badOp)
     | _ :: _ => (s.pop, .closed none)
   | .setr r => ({ s with rdr := r }, .done)
-  | .read caps => (s.openView caps).readTop
+  | .read caps =>
+    if s.rawCapped caps then (s, .badOp)
+    else if s.canOpen then (s.openView caps).readTop
+    else (s.unwind, .panic)
 
 def run (s : ISess) : List Op → ISess × List Resp
   | [] => (s, [])
@@ -146,7 +160,7 @@ end ISess
 def IStore.fresh (k : Kind) (cap : Nat) (old : List UInt8) : IStore :=
   match k with
   | .vec | .arr => { kind := k, cap := cap, data := old }
-  | .slice => { kind := k, cap := old.length, data := [] }
+  | .slice | .raw => { kind := k, cap := old.length, data := [] }
   | .sref => { kind := k, cap := old.length, data := old }
 
 def ISess.fresh (st : IStore) : ISess := { store := st, stack := [], rdr := .empty }
@@ -188,6 +202,33 @@ theorem Rdr.read_sound (r : Rdr) : ∀ (n : Nat), (r.read n).wrote.length ≤ n 
           exact ⟨by omega, by intro k' hk'; cases hk'⟩
       | err => exact ⟨by dsimp only; omega, by intro k' hk'; cases hk'⟩
       | panic => exact ⟨by dsimp only; omega, by intro k' hk'; cases hk'⟩
+  | bufr cap buffered r ih =>
+    intro n
+    unfold Rdr.read
+    split
+    · exact ih n
+    · split
+      · obtain ⟨h1, h2⟩ := ih cap
+        dsimp only
+        cases hr : (r.read cap).ret with
+        | ok k =>
+          dsimp only
+          split
+          · refine ⟨by simp; omega, ?_⟩
+            intro k' hk'
+            simp only [RdRet.ok.injEq] at hk'
+            subst hk'
+            left
+            simp
+          · exact ⟨by simp, by intro k' hk'; cases hk'⟩
+        | err => exact ⟨by simp, by intro k' hk'; cases hk'⟩
+        | panic => exact ⟨by simp, by intro k' hk'; cases hk'⟩
+      · refine ⟨by simp; omega, ?_⟩
+        intro k' hk'
+        simp only [RdRet.ok.injEq] at hk'
+        subst hk'
+        left
+        simp
   | chain a b done iha ihb =>
     intro n
     unfold Rdr.read
@@ -226,7 +267,7 @@ theorem VRel.room_eq {v : View} {i : IView} (h : VRel v i) : v.room = i.room := 
 def SRel (s : Store) (i : IStore) : Prop :=
   s.Wf ∧ s.kind = i.kind ∧
   match s.kind with
-  | .vec | .arr => s.buf.length = i.cap ∧ s.contents = i.data ∧ s.len = i.data.length
+  | .vec | .arr | .raw => s.buf.length = i.cap ∧ s.contents = i.data ∧ s.len = i.data.length
   | .slice => s.buf.length = i.cap
   | .sref => s.buf.length = i.cap ∧ s.buf = i.data
 
@@ -239,6 +280,7 @@ theorem SRel.room_eq {s : Store} {i : IStore} (h : SRel s i) : s.room = i.room :
   · omega
   · have := hw.2 (Or.inl hkk); omega
   · have := hw.2 (Or.inr hkk); omega
+  · omega
 
 def stackRel : List View → List IView → Prop
   | [], [] => True
@@ -262,7 +304,7 @@ theorem release_rel {s : Store} {i : IStore} {v : View} {iv : IView} (hs : SRel 
       refine ⟨by omega, by rw [r1, hm.2.1, vd], ?_⟩
       rw [r2, hm.2.2, VRel.init_eq ⟨vw, vc, vd⟩]
       simp
-    · obtain ⟨r1, r2, r3, r4⟩ := Store.release_vec hw vw hf (Or.inr hkk)
+    · obtain ⟨r1, r2, r3, r4⟩ := Store.release_vec hw vw hf (Or.inr (Or.inl hkk))
       simp only [hkk] at hm
       rw [r4, hkk]
       simp only [IStore.release, ← hk, hkk]
@@ -280,6 +322,13 @@ theorem release_rel {s : Store} {i : IStore} {v : View} {iv : IView} (hs : SRel 
       simp only [IStore.release, ← hk, hkk]
       have : (s.release v).buf = v.done := by simpa [Store.contents, r3, hkk] using r1
       rw [this, vd]; simp
+    · obtain ⟨r1, r2, r3, r4⟩ := Store.release_vec hw vw hf (Or.inr (Or.inr hkk))
+      simp only [hkk] at hm
+      rw [r4, hkk]
+      simp only [IStore.release, ← hk, hkk]
+      refine ⟨by omega, by rw [r1, hm.2.1, vd], ?_⟩
+      rw [r2, hm.2.2, VRel.init_eq ⟨vw, vc, vd⟩]
+      simp
 
 theorem writeBack_rel {p c : View} {ip ic : IView} (hp : VRel p ip) (hc : VRel c ic) (hf : c.Fits p) :
     VRel (p.writeBack c) (ip.absorb ic) :=
@@ -348,23 +397,70 @@ theorem onTop {s : Sess} {i : ISess} (h : Rel s i) (f : View → View × Res) (g
     · exact ⟨key, rfl⟩
     · exact ⟨key.unwind, rfl⟩
 
+theorem rawCapped_eq {s : Sess} {i : ISess} (h : Rel s i) (caps : List Nat) :
+    s.rawCapped caps = i.rawCapped caps := by
+  obtain ⟨hw, hs, hr, hd⟩ := h
+  obtain ⟨store, stack, rdr⟩ := s
+  obtain ⟨istore, istack, irdr⟩ := i
+  simp only at hs hr hd
+  have hk : store.kind = istore.kind := hs.2.1
+  match stack, istack, hr with
+  | [], [], hr => simp [Sess.rawCapped, ISess.rawCapped, hk]
+  | v :: rest, iv :: irest, hr => simp [Sess.rawCapped, ISess.rawCapped]
+
+/-- the model can make a new view exactly when the ideal semantics can -/
 theorem base_eq {s : Sess} {i : ISess} (h : Rel s i) :
-    ∃ b, s.base = some b ∧ b.mem.length = i.baseRoom := by
+    (i.canOpen = true → ∃ b, s.base = some b ∧ b.mem.length = i.baseRoom) ∧
+    (i.canOpen = false → s.base = none) := by
   obtain ⟨hw, hs, hr, hd⟩ := h
   obtain ⟨store, stack, rdr⟩ := s
   obtain ⟨istore, istack, irdr⟩ := i
   simp only at hs hr hd
   match stack, istack, hr with
   | [], [], hr =>
-    refine ⟨_, by simp only [Sess.base]; exact Store.top_eq hs.1, ?_⟩
-    simp only [ISess.baseRoom, ← hs.room_eq, Store.room, List.length_drop]
+    have hk : store.kind = istore.kind := hs.2.1
+    have hlen : store.kind = .raw → store.len = istore.data.length := by
+      intro hraw
+      have := hs.2.2
+      simp only [hraw] at this
+      exact this.2.2
+    constructor
+    · intro hc
+      have hco : store.canOpen := by
+        intro ⟨hraw, hne⟩
+        simp [ISess.canOpen, ← hk, hraw] at hc
+        rw [hlen hraw, hc] at hne
+        exact hne rfl
+      refine ⟨_, by simp only [Sess.base]; exact Store.top_eq hs.1 hco, ?_⟩
+      simp only [ISess.baseRoom, ← hs.room_eq, Store.room, List.length_drop]
+    · intro hc
+      simp only [Sess.base]
+      apply Store.top_none
+      intro hco
+      apply hco
+      simp [ISess.canOpen, ← hk] at hc
+      refine ⟨hc.1, ?_⟩
+      rw [hlen hc.1]
+      intro h0
+      exact hc.2 (List.eq_nil_of_length_eq_zero h0)
   | v :: rest, iv :: irest, hr =>
-    refine ⟨_, by simp only [Sess.base]; exact View.child_eq hr.1.1, ?_⟩
-    simp only [ISess.baseRoom, ← hr.1.room_eq, View.room, List.length_drop]
+    constructor
+    · intro _
+      refine ⟨_, by simp only [Sess.base]; exact View.child_eq hr.1.1, ?_⟩
+      simp only [ISess.baseRoom, ← hr.1.room_eq, View.room, List.length_drop]
+    · intro hc
+      simp [ISess.canOpen] at hc
 
-theorem openView {s : Sess} {i : ISess} (h : Rel s i) (caps : List Nat) :
+theorem openView_fail {s : Sess} {i : ISess} (h : Rel s i) (caps : List Nat) (hc : i.canOpen = false) :
+    (s.openView caps).2 = false ∧ Rel (s.openView caps).1 i.unwind := by
+  have hb := (base_eq h).2 hc
+  unfold Sess.openView
+  rw [hb]
+  exact ⟨rfl, h.unwind⟩
+
+theorem openView {s : Sess} {i : ISess} (h : Rel s i) (caps : List Nat) (hc : i.canOpen = true) :
     (s.openView caps).2 = true ∧ Rel (s.openView caps).1 (i.openView caps) := by
-  obtain ⟨b, hb, hlen⟩ := base_eq h
+  obtain ⟨b, hb, hlen⟩ := (base_eq h).1 hc
   obtain ⟨hok, h0⟩ := Sess.base_wf h.1 hb
   have hle := View.foldl_min_le caps b.mem.length
   have e : s.openView caps =
@@ -505,13 +601,24 @@ theorem step_rel {s : Sess} {i : ISess} (h : Rel s i) (op : Op) :
       simp only [Sess.step, ISess.step, View.remaining_eq hr.1.1, hr.1.room_eq]
       exact ⟨⟨hw, hs, hr, hd⟩, trivial⟩
   | openV caps =>
-    obtain ⟨h1, h2⟩ := h.openView caps
-    simp only [Sess.step, ISess.step]
-    generalize s.openView caps = r at h1 h2
-    obtain ⟨s', b⟩ := r
-    simp only at h1 h2
-    subst h1
-    exact ⟨h2, rfl⟩
+    simp only [Sess.step, ISess.step, h.rawCapped_eq caps]
+    split
+    · exact ⟨h, rfl⟩
+    · cases hc : i.canOpen with
+      | true =>
+        obtain ⟨h1, h2⟩ := h.openView caps hc
+        generalize s.openView caps = r at h1 h2
+        obtain ⟨s', b⟩ := r
+        simp only at h1 h2
+        subst h1
+        exact ⟨h2, rfl⟩
+      | false =>
+        obtain ⟨h1, h2⟩ := h.openView_fail caps hc
+        generalize s.openView caps = r at h1 h2
+        obtain ⟨s', b⟩ := r
+        simp only at h1 h2
+        subst h1
+        exact ⟨h2, rfl⟩
   | init =>
     have hpop := h.pop
     obtain ⟨hw, hs, hr, hd⟩ := h
@@ -534,13 +641,24 @@ theorem step_rel {s : Sess} {i : ISess} (h : Rel s i) (op : Op) :
     | v :: rest, iv :: irest, hr => exact ⟨hpop, rfl⟩
   | setr r => exact ⟨⟨Sess.wf_congr h.1 rfl rfl, h.2.1, h.2.2.1, rfl⟩, rfl⟩
   | read caps =>
-    obtain ⟨h1, h2⟩ := h.openView caps
-    simp only [Sess.step, ISess.step]
-    generalize s.openView caps = r at h1 h2
-    obtain ⟨s', b⟩ := r
-    simp only at h1 h2
-    subst h1
-    exact h2.readTop
+    simp only [Sess.step, ISess.step, h.rawCapped_eq caps]
+    split
+    · exact ⟨h, rfl⟩
+    · cases hc : i.canOpen with
+      | true =>
+        obtain ⟨h1, h2⟩ := h.openView caps hc
+        generalize s.openView caps = r at h1 h2
+        obtain ⟨s', b⟩ := r
+        simp only at h1 h2
+        subst h1
+        exact h2.readTop
+      | false =>
+        obtain ⟨h1, h2⟩ := h.openView_fail caps hc
+        generalize s.openView caps = r at h1 h2
+        obtain ⟨s', b⟩ := r
+        simp only at h1 h2
+        subst h1
+        exact ⟨h2, rfl⟩
 
 /-- … and therefore every operation sequence. -/
 theorem run_rel (ops : List Op) : ∀ {s : Sess} {i : ISess}, Rel s i →
@@ -615,11 +733,21 @@ theorem step_same (s : ISess) (op : Op) : (s.step op).1.store.Same s.store := by
   case extendPanic => exact onTop_same _ _ _ _
   case advance => exact onTop_same _ _ _ _
   case remaining => split <;> exact IStore.Same.rfl' _
-  case openV => exact IStore.Same.rfl' _
+  case openV =>
+    split
+    · exact IStore.Same.rfl' _
+    · split
+      · exact IStore.Same.rfl' _
+      · exact unwind_same _
   case init => split <;> first | exact IStore.Same.rfl' _ | exact pop_same _
   case drop => split <;> first | exact IStore.Same.rfl' _ | exact pop_same _
   case setr => exact IStore.Same.rfl' _
-  case read caps => exact readTop_same (s.openView caps)
+  case read caps =>
+    split
+    · exact IStore.Same.rfl' _
+    · split
+      · exact readTop_same (s.openView caps)
+      · exact unwind_same _
 
 theorem run_same (ops : List Op) : ∀ (s : ISess), (s.run ops).1.store.Same s.store := by
   induction ops with
